@@ -225,3 +225,53 @@ example :
   decide
 
 end Rl4co.Improve.Bsf
+
+namespace Rl4co.Improve.Bsf
+variable {A : Type} (n : Nat) (D : Nat → Nat → Int) (op : Rec → A → Rec)
+
+/-- **C09, literal: "rewards sum to initial cost minus best cost".**  For any operator and ANY move list
+`a₁ … a_T` from `_reset` on any initial array:  Σ_{t=1..T} reward_t = cost(rec₀) − cost_bsf_T. -/
+theorem rewards_telescope (rec0 : Rec) (as : List A) :
+    (rewards n D op (reset n D rec0) as).sum = cost n D rec0 - (final n D op (reset n D rec0) as).costBsf :=
+  (invariants n D op rec0 as).2.2.2.2
+
+/-- the best-so-far costs along a run (reset included) -/
+def bsfs (s : State) (as : List A) : List Int := (trace n D op s as).map (·.costBsf)
+
+/-- **C09, literal: "each step's reward equals the decrease of the best-so-far cost".**  The list of rewards is
+the list of consecutive differences of the best-so-far costs, for any state and any move list. -/
+theorem rewards_eq_decreases : ∀ (as : List A) (s : State),
+    rewards n D op s as = List.zipWith (· - ·) (bsfs n D op s as) ((bsfs n D op s as).drop 1) := by
+  intro as
+  induction as with
+  | nil => intro s; simp [rewards, bsfs, trace]
+  | cons a as ih =>
+    intro s
+    obtain ⟨t, ht⟩ := trace_head n D op (step n D op s a) as
+    have h1 : rewards n D op s (a :: as) = (step n D op s a).reward :: rewards n D op (step n D op s a) as := by
+      simp only [rewards, drop_one_trace_cons]; rw [ht]; simp
+    have h2 : bsfs n D op s (a :: as) = s.costBsf :: bsfs n D op (step n D op s a) as := by
+      simp [bsfs, trace]
+    have h3 : ∃ t', bsfs n D op (step n D op s a) as = (step n D op s a).costBsf :: t' := by
+      simp only [bsfs]; rw [ht]; exact ⟨_, rfl⟩
+    obtain ⟨t', ht'⟩ := h3
+    rw [h1, h2, ih (step n D op s a), ht']
+    simp only [List.drop_succ_cons, List.drop_zero, List.zipWith_cons_cons]
+    rw [(reward_step n D op s a).1]
+
+/-- every reward of a run is non-negative -/
+theorem rewards_nonneg : ∀ (as : List A) (s : State), ∀ x ∈ rewards n D op s as, 0 ≤ x := by
+  intro as
+  induction as with
+  | nil => intro s x hx; simp [rewards, trace] at hx
+  | cons a as ih =>
+    intro s x hx
+    obtain ⟨t, ht⟩ := trace_head n D op (step n D op s a) as
+    have h1 : rewards n D op s (a :: as) = (step n D op s a).reward :: rewards n D op (step n D op s a) as := by
+      simp only [rewards, drop_one_trace_cons]; rw [ht]; simp
+    rw [h1] at hx
+    rcases List.mem_cons.mp hx with rfl | hx
+    · exact (reward_step n D op s a).2
+    · exact ih _ x hx
+
+end Rl4co.Improve.Bsf
